@@ -8,6 +8,7 @@ if [ -f tools/extract/main.go ]; then
   (cd tools/extract && go run . /repo > ../../coq/Gen/Tables.v.new && \
      (cmp -s ../../coq/Gen/Tables.v.new ../../coq/Gen/Tables.v || mv ../../coq/Gen/Tables.v.new ../../coq/Gen/Tables.v); rm -f ../../coq/Gen/Tables.v.new)
 fi
+python3 -c "import sys; sys.path.insert(0,'gen'); import common; common.write_coqproject()"
 (cd coq && coq_makefile -f _CoqProject -o Makefile >/dev/null && timeout 3000 make -j16)
 cp /repo/go.sum harness/go.sum
 (cd harness && go build -tags verif -o /dev/null .)
